@@ -26,6 +26,8 @@ REWRITES = [
     (VTIMER_DIRS, re.compile(r'^(\s*)"time"\s*$', re.M), r'\1time "github.com/hashicorp/consul/internal/verifmc/vtimer"'),
     (VTIME_DIRS, re.compile(r'^(\s*)"time"\s*$', re.M), r'\1time "github.com/hashicorp/consul/internal/verifmc/vtime"'),
     (VSYNC_DIRS, re.compile(r'^(\s*)"sync"\s*$', re.M), r'\1sync "github.com/hashicorp/consul/internal/verifmc/vsync"'),
+    # ... and their atomic operations (the lock-free event buffer's links, subscription state)
+    (VSYNC_DIRS, re.compile(r'^(\s*)"sync/atomic"\s*$', re.M), r'\1atomic "github.com/hashicorp/consul/internal/verifmc/vatomic"'),
 ]
 
 
